@@ -12,9 +12,10 @@ echo "== changed tree: build + tests"
 cargo build --offline 2>&1 | tail -1
 T=$(cargo test --workspace --no-fail-fast --offline 2>&1 | grep "test result" | head -1); echo "$T"
 bash $OUT/demo.sh $WT/target/debug/customasm >/dev/null 2>&1; DC=$?; echo "demo on changed tree: exit $DC (expect 1)"
-git stash -q; cargo build --offline 2>&1 | tail -1
+git apply -R $OUT/patch.diff || { echo "cannot revert patch in worktree"; exit 2; }
+cargo build --offline 2>&1 | tail -1
 bash $OUT/demo.sh $WT/target/debug/customasm >/dev/null 2>&1; DU=$?; echo "demo on unchanged tree: exit $DU (expect 0)"
-git stash pop -q
+git apply $OUT/patch.diff
 echo "== checks on /repo with the patch applied"
 cd /repo && git apply $OUT/patch.diff || { echo "patch does not apply to /repo"; exit 2; }
 RES=""
